@@ -93,6 +93,22 @@ def generate(rng, n, tier="quick"):
                {"op": "render", "reg": 0, "api": "render", "name": "main", "data": enc(d)}]
         case = {"kind": "session", "regs": [{"escape": "html"}], "ops": ops, "id": "%s-else%02d" % (ID, k)}
         out.append((case, {"mode": "ast", "strict": list(exp), "loose": ["must", "[ ]" if "}} {{" in tpl else "[]"]}))
+    # directed: more `../` than enclosing scopes (outside the quantifier of C01 – what such a path designates is not stated; the crate
+    # and the model are compared, and the strict / non-strict relation is checked): the key present in the innermost scope only,
+    # at the root only, in both, in neither; one and two scopes; as a value, a block argument, a helper argument
+    kk = 0
+    for dname, d in (("inner", {"a": {"x": "in", "b": {"x": "deep"}}}), ("root", {"a": {"b": {}}, "x": "root"}),
+                     ("both", {"a": {"x": "in", "b": {"x": "deep"}}, "x": "root"}), ("neither", {"a": {"b": {}}})):
+        for tpl in ("{{#with a}}[{{../../x}}]{{/with}}", "{{#with a}}[{{../../../x}}]{{/with}}", "{{#with a}}{{#with b}}[{{../../../x}}|{{../../x}}]{{/with}}{{/with}}",
+                    "{{#each a}}[{{../../x}}]{{/each}}", "{{#with a}}[{{#if ../../x}}T{{else}}F{{/if}}]{{/with}}", "{{#with a}}[{{len ../../x}}]{{/with}}",
+                    "{{#with a}}[{{#with ../../x}}{{this}}{{else}}E{{/with}}]{{/with}}", "[{{../x}}|{{../../x}}]"):
+            ops = [{"op": "reg_string", "reg": 0, "name": "main", "src": tpl},
+                   {"op": "render", "reg": 0, "api": "render", "name": "main", "data": enc(d)},
+                   {"op": "set_strict", "reg": 0, "v": True},
+                   {"op": "render", "reg": 0, "api": "render", "name": "main", "data": enc(d)}]
+            case = {"kind": "session", "regs": [{"escape": "html"}], "ops": ops, "id": "%s-deepup%03d" % (ID, kk)}
+            kk += 1
+            out.append((case, {"mode": "ast", "strict": ["any", "over-deep ../"], "loose": ["any", "over-deep ../"]}))
     return out
 
 
